@@ -1,6 +1,7 @@
 import Girc.Model.Lifecycle
 import Girc.Proofs.LifeInv
 import Girc.Proofs.LifeTerm
+import Girc.Proofs.LifeCause
 /-
   C07 proofs: invariants of the lifecycle model over ALL reachable states (all interleavings of the
   four loops, main, user goroutines and the peer), result classification, lifecycle events, and
@@ -123,5 +124,104 @@ theorem maximal_run_returns (s s' : LState) (acts : List Act) (hc : s.groupCance
     (hmax : ∀ a, a.isLib = true → step s' a = none) : ∃ r, s'.main = .returned r := by
   have _ := hl  -- not needed: the cancellation persists under every action
   exact maximal_run_returns' s s' acts hc hr hmax
+
+/-! ### keep-alive pings disabled; a connection ends only for a reason -/
+
+/-- `if c.Config.PingDelay <= 0 { return nil }`: the ping loop's early return leaves the group, the
+    contexts, main and the other three loops exactly as they were. -/
+theorem ping_off_does_not_end (s s' : LState) (hs : step s .pingDisabled = some s') :
+    s'.groupCancelled = s.groupCancelled ∧ s'.groupErr = s.groupErr ∧ s'.parentCancelled = s.parentCancelled ∧
+    s'.main = s.main ∧ s'.exec = s.exec ∧ s'.read = s.read ∧ s'.send = s.send :=
+  ping_off_does_not_end' s s' hs
+
+/-- The group is cancelled only after a terminating cause has occurred. -/
+theorem no_spontaneous_end {s : LState} (h : Reach s) (hc : s.groupCancelled = true) :
+    s.closeRequested = true ∨ s.peerClosed = true ∨ firstError s.delivered ≠ none ∨
+    s.parseErrSeen = true ∨ s.pingTimedOut = true ∨ s.writeFailed = true :=
+  cause_of_reach h hc
+
+/-- Without a cause nothing has ended: the group is not cancelled, main is in `group.Wait()`, the
+    exec / read / send loops are running, the socket is open and `conn` is set; the ping loop is
+    running, or has returned nil because pings are disabled. -/
+theorem up_without_cause {s : LState} (h : Reach s)
+    (h1 : s.closeRequested = false) (h2 : s.peerClosed = false) (h3 : firstError s.delivered = none)
+    (h4 : s.parseErrSeen = false) (h5 : s.pingTimedOut = false) (h6 : s.writeFailed = false) :
+    s.groupCancelled = false ∧ s.main = .waiting ∧ s.exec = .running ∧ s.read = .running ∧ s.send = .running ∧
+    (s.ping = .running ∨ (s.pingOff = true ∧ s.ping = .exited none)) ∧ s.sockClosed = false ∧ s.connNil = false := by
+  have g := good_of_reach h
+  have hgc : s.groupCancelled = false := by
+    cases hx : s.groupCancelled with
+    | false => rfl
+    | true =>
+      rcases cause_of_reach h hx with c | c | c | c | c | c
+      · rw [h1] at c; cases c
+      · rw [h2] at c; cases c
+      · exact absurd h3 c
+      · rw [h4] at c; cases c
+      · rw [h5] at c; cases c
+      · rw [h6] at c; cases c
+  have running_of : ∀ l : Loop, (l.done = true → s.groupCancelled = true) → l = .running := by
+    intro l hl
+    cases l with
+    | running => rfl
+    | exited r => have := hl rfl; rw [hgc] at this; cases this
+  have hexec := running_of s.exec g.exec_gc
+  have hw : s.main = .waiting := g.waiting_of_exec hexec
+  refine ⟨hgc, hw, hexec, running_of s.read g.read_gc, running_of s.send g.send_gc, ?_, g.sock_open hw, ?_⟩
+  · cases hp : s.ping with
+    | running => exact .inl rfl
+    | exited r =>
+      rcases g.ping_gc (by rw [hp]; rfl) with c | c
+      · rw [hgc] at c; cases c
+      · exact .inr ⟨c.1, by rw [← hp]; exact c.2⟩
+  · rw [g.conn_eq, hw]; rfl
+
+/-- If Connect has returned (indeed as soon as `group.Wait()` has returned), a cause has occurred. -/
+theorem returned_has_cause {s : LState} (h : Reach s) (hm : s.main ≠ .waiting) :
+    s.closeRequested = true ∨ s.peerClosed = true ∨ firstError s.delivered ≠ none ∨
+    s.parseErrSeen = true ∨ s.pingTimedOut = true ∨ s.writeFailed = true := by
+  have g := good_of_reach h
+  exact cause_of_reach h (g.exec_gc (g.main_done hm).1)
+
+/-- The three cause flags are history variables: a step from the state with the flags erased is enabled
+    exactly when it is enabled from `s`, and leads to the same state up to the flags. So no step's
+    enabledness or effect (on anything but the flags themselves) depends on them. -/
+def forgetCauses (s : LState) : LState :=
+  { s with parseErrSeen := false, pingTimedOut := false, writeFailed := false }
+
+theorem forget_step_some (s s' : LState) (a : Act) (h : step s a = some s') :
+    (step (forgetCauses s) a).map forgetCauses = some (forgetCauses s') := by
+  cases a <;> simp only [step] at h <;> (repeat' split at h) <;>
+    first
+      | (cases h; done)
+      | (cases h; simp_all [step, forgetCauses, LState.fail]; done)
+      | (cases h; simp_all [step, forgetCauses, LState.fail]; split <;> simp_all; done)
+
+theorem forget_step_none (s : LState) (a : Act) (h : step s a = none) : step (forgetCauses s) a = none := by
+  cases a <;> simp only [step] at h <;> (repeat' split at h) <;>
+    first
+      | (cases h; done)
+      | (simp_all [step, forgetCauses, LState.fail]; done)
+
+theorem cause_flags_are_history (s : LState) (a : Act) :
+    (step (forgetCauses s) a).map forgetCauses = (step s a).map forgetCauses := by
+  cases h : step s a with
+  | none => rw [forget_step_none s a h]
+  | some s' => exact forget_step_some s s' a h
+
+theorem cause_flags_enabled (s : LState) (a : Act) : (step (forgetCauses s) a).isSome = (step s a).isSome := by
+  have h := congrArg Option.isSome (cause_flags_are_history s a)
+  simpa using h
+
+/-- Each flag is written by one action only. -/
+theorem cause_flags_writers (s s' : LState) (a : Act) (hs : step s a = some s') :
+    (a ≠ .readParseErr → s'.parseErrSeen = s.parseErrSeen) ∧
+    (a ≠ .pingTimeout → s'.pingTimedOut = s.pingTimedOut) ∧
+    (a ≠ .sendFail → s'.writeFailed = s.writeFailed) := by
+  cases a <;> simp only [step] at hs <;> (repeat' split at hs) <;>
+    first
+      | (cases hs; done)
+      | (cases hs; simp [LState.fail]; done)
+      | (cases hs; simp [LState.fail]; split <;> simp [LState.fail]; done)
 
 end Girc.Proofs.Life
